@@ -3,6 +3,8 @@ CONSTANTS
   MaxMods = 3
   MaxDecls = 1
   ImportPositions = FALSE
+  ImportTwice = FALSE
+  Restricted = FALSE
   Dirs <- FlatDirs
 INVARIANTS SequencesConfluent
 CHECK_DEADLOCK FALSE
